@@ -57,7 +57,8 @@ def main(argv):
     budget = float(argv[6]) if len(argv) > 6 else None
     faulthandler.enable()
     try:
-        resource.setrlimit(resource.RLIMIT_AS, (8 << 30, 8 << 30))
+        lim = int(os.environ.get('VF_RLIMIT_AS_GIB', '8')) << 30
+        resource.setrlimit(resource.RLIMIT_AS, (lim, lim))
     except (ValueError, OSError):
         pass
     import dliswriter
